@@ -1,5 +1,6 @@
 import Orb.Proto
 import Orb.WKB
+import Orb.WKBOrder
 import Orb.Core
 import Generated.Params
 
@@ -63,6 +64,15 @@ def splitSemi (ts : Toks) : List Toks :=
     (math.Min/Max and the model's min/max may pick different zeros) -/
 def sameOutcome (a b : String) : Bool := a == b
 
+/-- verdict of a "fragmenting readers" segment (`same` | `differs:<reader>=<outcome>,…`, then optionally
+    `zero1=<outcome>` for the reader that answers (0, nil) also to one-byte requests, kept apart: the bare
+    `r.Read(buf[:1])` of readByteOrderType is a finding of its own); `none` when every reader agreed -/
+def frVerdict (fr : Toks) : Option String :=
+  match fr with
+  | ["same"] => none
+  | ["same", z] => if z.startsWith "zero1=" then some ("propfail stream-zero-read-not-retried " ++ z) else some "bad output"
+  | _ => some ("propfail stream-reader-dependent " ++ " ".intercalate fr)
+
 /-- judge of `rt` / `wrt`: encoder bytes, both decoders, and the agreement of the other exported
     encoder entry points (4th segment, `same` when they all wrote the same bytes) -/
 def judgeRt (o : Order) (srid : Nat) (v : GVal UInt64) (out : Toks) : String :=
@@ -77,7 +87,13 @@ def judgeRt (o : Order) (srid : Nat) (v : GVal UInt64) (out : Toks) : String :=
       fin <|
       if um == ["panic"] || st == ["panic"] || hex == "panic" then "propfail panic" else
       match more with
-      | _ :: _ :: _ => "bad output"
+      | _ :: _ :: _ :: _ => "bad output"
+      | [api, fr] =>
+        if api != ["same"] then "propfail encoder-entry-points-disagree " ++ " ".intercalate api else
+        -- 5th segment: the stream decoder once more through fragmenting readers (`same` when every one of
+        -- them gave the outcome of the plain reader, which is judged against the model just above)
+        let r := judgeVal v hex um st
+        if r.startsWith "ok" then (frVerdict fr).getD r else r
       | [api] => if api != ["same"] then "propfail encoder-entry-points-disagree " ++ " ".intercalate api else judgeVal v hex um st
       | [] => judgeVal v hex um st
     | _ => if out == ["panic"] then "propfail panic" else "bad output"
@@ -118,6 +134,21 @@ def handleWrt (inp out : Toks) : String :=
     let r := judgeRt o 0 v out
     if r.startsWith "ok " then "ok wkb-" ++ (r.drop 3).toString else r
 
+/-- split trailing `; wr …` / `; fr …` segments off an outcome -/
+def splitExtras (out : Toks) : Toks × List Toks :=
+  let segs := splitSemi out
+  let isExtra (s : Toks) : Bool := match s with | "wr" :: _ => true | "fr" :: _ => true | _ => false
+  (List.intercalate [";"] (segs.filter fun s => !isExtra s), segs.filter isExtra)
+
+/-- the verdict of the writer / reader segments: `none` when all say `same` -/
+def extrasVerdict (extras : List Toks) : Option String :=
+  extras.findSome? fun s =>
+    match s with
+    | ["wr", "same"] => none
+    | "wr" :: rest => some ("propfail encoder-writer-dependent " ++ " ".intercalate rest)
+    | "fr" :: rest => frVerdict rest
+    | _ => some "bad output"
+
 /-- `seq n (o srid how gval)* => HEX ; outcome ; … ; outcome` : one Encoder, one Decoder, a stream of values -/
 def handleSeq (inp out : Toks) : String :=
   match (do
@@ -134,6 +165,9 @@ def handleSeq (inp out : Toks) : String :=
   | none => "bad input"
   | some items =>
     if out == ["panic"] then "propfail panic" else
+    -- trailing segments `wr …` (the same Encode calls on other kinds of writers) and `fr …` (the same
+    -- Decode calls on fragmenting readers): `same`, or the writers / readers that gave something else
+    let (out, extras) := splitExtras out
     let mbytes := items.foldl (fun acc (o, srid, v) => acc ++ encode o srid v) []
     let vals := items.filterMap fun (_, srid, v) => match v with | .val g => some (g, srid) | _ => none
     -- model: successive Decode() calls on one stream, one more than there are values
@@ -158,7 +192,9 @@ def handleSeq (inp out : Toks) : String :=
       let gotVals := (outs.take vals.length).map (" ".intercalate ·)
       if gotVals != want then "propfail stream-sequence-roundtrip" else
       if (outs.drop vals.length).map (" ".intercalate ·) != ["err eof"] then "propfail stream-end-not-eof" else
-      if vals.length ≤ 1 then "ok seq-short" else "ok seq"
+      match extrasVerdict extras with
+      | some v => v
+      | none => if vals.length ≤ 1 then "ok seq-short" else "ok seq"
 
 def frameBytes (framing : String) (prefixSrid : Nat) (bs : Bytes) : Option Bytes :=
   match framing with
@@ -367,8 +403,26 @@ def bigGeom (shape : String) (n : Nat) (base : UInt64) : Option G :=
   -- n collection levels around one point / with a sibling point after the inner collection at every level
   | "NEST" => some (nest false n)
   | "NESTW" => some (nest true n)
+  | "NESTM" => some (nestM n)
   | _ => none
 where
+  /-- `n` collection levels around one point, members of every kind before / after the inner collection -/
+  nestM : Nat → G
+    | 0 => .point ⟨base, base + 1⟩
+    | k+1 =>
+      let pt (j : Nat) : Pt UInt64 := ⟨base + 2 * UInt64.ofNat j, base + 2 * UInt64.ofNat j + 1⟩
+      let pts (k0 m : Nat) : List (Pt UInt64) := (List.range m).map fun i => pt (k0 + i)
+      let mixed (j : Nat) : G :=
+        match j % 7 with
+        | 0 => .point (pt j)
+        | 1 => .lineString (pts j 2)
+        | 2 => .polygon [pts j 3]
+        | 3 => .multiPoint (pts j 2)
+        | 4 => .collection []
+        | 5 => .multiPolygon [[pts j 1]]
+        | _ => .multiLineString [pts j 1, []]
+      let lvl := k + 1
+      .collection ((if lvl % 3 == 1 then [mixed lvl] else []) ++ [nestM k] ++ (if lvl % 2 == 0 then [mixed (lvl + 1)] else []))
   nest (wide : Bool) : Nat → G
     | 0 => .point ⟨base, base + 1⟩
     | 1 => .collection [.point ⟨base, base + 1⟩]
@@ -406,6 +460,7 @@ def handleBig (inp out : Toks) : String :=
   | none => "bad input"
   | some (shape, o, srid, n, g) =>
     if out == ["panic"] then "propfail panic" else
+    let (out, extras) := splitExtras out
     let segs := (splitSemi out).map (" ".intercalate ·)
     if segs.any (· == "panic") then "propfail panic" else
     let mbytes := encGeom o srid g
@@ -415,7 +470,8 @@ def handleBig (inp out : Toks) : String :=
     let msc := allDests.map fun d => digest (scan bndF d mbytes)
     let model := mhead :: mum :: mst :: msc
     let fin (s : String) : String := if s.startsWith "propfail" || model == segs then s else "diff " ++ " ; ".intercalate model
-    fin <|
+    let fin2 (s : String) : String := if s.startsWith "ok" then (extrasVerdict extras).getD s else s
+    fin <| fin2 <|
     match segs with
     | _head :: um :: st :: sc =>
       -- beyond MaxCollectionDepth the decoders must refuse (the scanners into `any` / `C` with them)
@@ -433,8 +489,10 @@ def handleBig (inp out : Toks) : String :=
           | some v => digest (.ok (v, srid))
           | none => "err incorrect"
         if sc != wants then "propfail scan-coercion large"
+        else if shape == "NESTM" then (if n + 100 > Generated.Params.wkb_MaxCollectionDepth then "ok nest-mixed-at-limit" else if n > 5 then "ok nest-mixed-deep" else "ok nest-mixed")
         else if shape.startsWith "NEST" then (if n + 100 > Generated.Params.wkb_MaxCollectionDepth then "ok nest-at-limit" else "ok nest")
-        else if n > 10000 then "ok large-points" else if n > 100 then "ok large-multi" else "ok at-cap"
+        else if n > 10000 then "ok large-points" else if n ≥ 9999 then "ok at-points-cap"
+        else if n > 101 then "ok mid-size" else if n ≥ 100 then "ok at-cap" else if n > 7 then "ok mid-size-small" else "ok small-size"
     | _ => "bad output"
 
 /-! ### one scanner value reused over several rows -/
@@ -524,6 +582,119 @@ where
     | a :: as, b :: bs, i => if a == b then firstDiff as bs (i+1) else i
     | _, _, i => i
 
+/-! ### byte-order values -/
+
+/-- `bo tok srid gval => <payload order> HEX ; <Unmarshal> ; <Decoder> ; same|…` : `ewkb.Marshal(g, srid, order)`
+    for a `binary.ByteOrder` VALUE named by `tok` (`le` = binary.LittleEndian itself, `be` = binary.BigEndian itself,
+    anything else = another value: binary.NativeEndian, user types).  The harness probes which order the
+    value writes integers in (first output token).  Model of the code: `encodeBO` (mark by probing the
+    value, fix C01-3).  Property: the bytes decode back to the value (`byte_order_roundtrip`). -/
+def handleBo (inp out : Toks) : String :=
+  match (do
+    let (t, i) ← tok inp
+    let (srid, i) ← nat i
+    let (v, _) ← gval i
+    pure (t, srid, v)) with
+  | none => "bad input"
+  | some (t, srid, v) =>
+    if out == ["panic"] then "propfail panic" else
+    match out with
+    | pot :: rest =>
+      (match parseOrder pot, splitSemi rest with
+       | some po, [[hex], um, st, api] =>
+         let isLE := t == "le"
+         let mark := codeMark isLE po
+         let mbytes := encodeBO isLE po srid v
+         let mhex := hexOfBytes mbytes
+         let mum := showOutcome (unmarshal mbytes)
+         let mst := showOutcome (decode mbytes)
+         let ums := " ".intercalate um
+         let sts := " ".intercalate st
+         let agree := mhex == hex && ums == mum && sts == mst
+         let fin (s : String) : String := if s.startsWith "propfail" || agree then s else s!"diff {mhex} ; {mum} ; {mst}"
+         fin <|
+         if ums == "panic" || sts == "panic" then "propfail panic" else
+         -- the documented values must be what they are said to be
+         if (t == "le" && po != .little) || (t == "be" && po != .big) then "bad payload order" else
+         if api != ["same"] then "propfail encoder-entry-points-disagree " ++ " ".intercalate api else
+         (match v with
+          | .val g =>
+            let deep := collDepth g > Generated.Params.wkb_MaxCollectionDepth
+            let want := if deep then "err toodeep" else showOutcome (.ok (canon g, srid))
+            if ums != want || sts != want then
+              (if agree && mark != po then "propfail byte-order-mark-mismatch " ++ t
+               else "propfail byte-order-roundtrip " ++ t)
+            else if t == "le" || t == "be" then "ok order-documented" else "ok order-" ++ t
+          | _ => if hex != "empty" then "propfail nil-encodes-to-bytes" else "ok triv-nil-order")
+       | _, _ => "bad output")
+    | [] => "bad output"
+
+/-- `trunc o srid cut gval => <kept> <len> ; <Unmarshal> ; <Decoder> ; <readers>` : the first `kept = cut % (len+1)`
+    bytes of an encoding through both decoders (model: `unmarshal` / `decode` on the same prefix) and the
+    stream decoder once more through every fragmenting reader. -/
+def handleTrunc (inp out : Toks) : String :=
+  match (do
+    let (ot, i) ← tok inp
+    let o ← parseOrder ot
+    let (srid, i) ← nat i
+    let (cut, i) ← nat i
+    let (v, _) ← gval i
+    pure (o, srid, cut, v)) with
+  | none => "bad input"
+  | some (o, srid, cut, v) =>
+    if out == ["panic"] then "propfail panic" else
+    match splitSemi out with
+    | [[kt, lt], um, st, fr] =>
+      let mbytes := encode o srid v
+      let kept := cut % (mbytes.length + 1)
+      let d := mbytes.take kept
+      let mum := showOutcome (unmarshal d)
+      let mst := showOutcome (decode d)
+      let ums := " ".intercalate um
+      let sts := " ".intercalate st
+      let agree := kt == toString kept && lt == toString mbytes.length && ums == mum && sts == mst
+      let fin (s : String) : String := if s.startsWith "propfail" || agree then s else s!"diff {kept} {mbytes.length} ; {mum} ; {mst}"
+      fin <|
+      if ums == "panic" || sts == "panic" then "propfail panic" else
+      if (frVerdict fr).isSome then (frVerdict fr).getD "" else
+      -- a proper prefix of an encoding is never accepted as the value
+      (match v with
+       | .val g =>
+         let whole := showOutcome (.ok (canon g, srid))
+         if kept < mbytes.length && (ums == whole || sts == whole) then "propfail truncated-accepted"
+         else if kept == mbytes.length then "ok trunc-whole"
+         else if sts.startsWith "err" then "ok trunc-" ++ (sts.drop 4).toString else "ok trunc-other-value"
+       | _ => "ok triv-trunc-nil")
+    | _ => "bad output"
+
+/-- `zread o srid gval => <Decoder> ; <readers>` : the stream decoder on the encoding, through the plain reader
+    (model: `decode`) and through the fragmenting readers INCLUDING the one that answers (0, nil) to one-byte
+    requests (`zero1=`; the other ops leave that one out). -/
+def handleZread (inp out : Toks) : String :=
+  match (do
+    let (ot, i) ← tok inp
+    let o ← parseOrder ot
+    let (srid, i) ← nat i
+    let (v, _) ← gval i
+    pure (o, srid, v)) with
+  | none => "bad input"
+  | some (o, srid, v) =>
+    if out == ["panic"] then "propfail panic" else
+    match splitSemi out with
+    | [st, fr] =>
+      let mst := showOutcome (decode (encode o srid v))
+      let sts := " ".intercalate st
+      let fin (s : String) : String := if s.startsWith "propfail" || sts == mst then s else s!"diff {mst}"
+      fin <|
+      if sts == "panic" then "propfail panic" else
+      (match v with
+       | .val g =>
+         let deep := collDepth g > Generated.Params.wkb_MaxCollectionDepth
+         let want := if deep then "err toodeep" else showOutcome (.ok (canon g, srid))
+         if sts != want then "propfail stream-roundtrip" else (frVerdict fr).getD "ok zero-read"
+       | _ => (frVerdict fr).getD "ok triv-zero-read-nil")
+    | _ => "bad output"
+
 def handle (ts : Toks) : String :=
   match ts with
   | op :: rest =>
@@ -537,6 +708,9 @@ def handle (ts : Toks) : String :=
     | "sc" => handleSc inp out
     | "scq" => handleScq inp out
     | "wsc" => handleWsc inp out
+    | "bo" => handleBo inp out
+    | "trunc" => handleTrunc inp out
+    | "zread" => handleZread inp out
     | _ => "bad op " ++ op
   | [] => "bad empty"
 
